@@ -55,9 +55,10 @@ def run(ctx):
     ctx.rule('R3', 'unused dummy positions come from enumerate(routine.arguments) and are the indices removed at call sites')
     g = m.get_function(RC, 'get_used_or_defined_symbols')
     src = ast.unparse(g.node)
-    ok = X.has(src, 'routine.body.uses_symbols | routine.body.defines_symbols') and X.has(src, 'dataflow_analysis_attached(routine)')
-    (ctx.judge('R1', 'used set source') if ok else
-     ctx.violation('R1', 'get_used_or_defined_symbols:source', g.where, 'the used/defined set is no longer the body\'s uses | defines'))
+    ctx.wired('R1', 'get_used_or_defined_symbols:source', g.where, src,
+              ['routine.body.uses_symbols | routine.body.defines_symbols', 'dataflow_analysis_attached(routine)'],
+              'the used/defined set is no longer the body\'s uses | defines',
+              reshaped_if=lambda tree: {'uses_symbols', 'defines_symbols'} <= {n.attr for n in ast.walk(tree) if isinstance(n, ast.Attribute)})
     sub = Ctx('C26', m, quiet=True)
     c26.run(sub)
     gaps = [f for f in sub.findings if f.rule in ('R1', 'R2')]
